@@ -33,6 +33,7 @@ GEN_CTORS = {
     "cma.CMAEvolutionStrategy", "numpy.random.SeedSequence", "random.SystemRandom",
 }
 GEN_DRAW_METHODS = NP_RANDOM_DRAWS | {"ask", "ask_and_eval", "ask_geno", "fast_forward", "reset", "tell"} | PY_RANDOM_DRAWS
+NP_INPLACE = {"fill_diagonal", "shuffle", "copyto", "put", "place", "putmask", "put_along_axis"}
 ENTROPY = {"uuid.uuid1", "uuid.uuid4", "os.urandom", "secrets.token_bytes", "secrets.token_hex", "secrets.randbits", "secrets.choice", "builtins.id", "builtins.hash", "os.getpid"}
 CLOCK_PREFIX = ("time.", "datetime.")
 LOG_METHODS = {"debug", "info", "warning", "error", "critical", "exception", "log", "bind", "msg"}
@@ -168,6 +169,11 @@ class Effects:
                     # container mutation through method call
                     if isinstance(call.func, ast.Attribute):
                         self._mutation_by_method(call, cs.external, f, eff, params, selfn)
+                    # numpy / stdlib functions that mutate their first argument in place
+                    if cs.external.rsplit(".", 1)[-1] in NP_INPLACE and cs.external.startswith(("numpy.", "random.")) and call.args:
+                        fake = ast.Call(func=ast.Attribute(value=call.args[0], attr="sort", ctx=ast.Load()), args=[], keywords=[])
+                        ast.copy_location(fake, call)
+                        self._mutation_by_method(fake, "builtins.list.sort", f, eff, params, selfn)
                 if cs.unresolved:
                     txt = norm(call.func)
                     fn = call.func
@@ -314,6 +320,36 @@ class Effects:
                     e = ("GLOBALWRITE", f"{f.module.name}.{holder.id}[]")
                     eff.add(e)
                     self.why.setdefault((f.qualname, e), (stmt.lineno, None))
+                else:
+                    src = self._alias_source(f, holder.id)
+                    if src is not None:
+                        e = ("WRITE", f"alias:{src}[]")
+                        eff.add(e)
+                        self.why.setdefault((f.qualname, e), (stmt.lineno, None))
+
+    def _alias_source(self, f: FuncInfo, name: str, depth: int = 3) -> str | None:
+        """If local `name` may alias state held elsewhere (bound to an attribute / property read or an element
+        of one, not to a freshly built container), return the text of that source."""
+        if depth <= 0:
+            return None
+        for n in body_walk(f.node):
+            vals = []
+            if isinstance(n, ast.Assign) and any(isinstance(t, ast.Name) and t.id == name for t in n.targets):
+                vals = [n.value]
+            elif isinstance(n, (ast.For, ast.AsyncFor, ast.comprehension)):
+                if any(isinstance(t, ast.Name) and t.id == name for t in ast.walk(n.target)):
+                    vals = [n.iter]
+            for v in vals:
+                core = v
+                while isinstance(core, ast.Subscript):
+                    core = core.value
+                if isinstance(core, ast.Attribute):
+                    return norm(core)
+                if isinstance(core, ast.Name) and core.id != name:
+                    r = self._alias_source(f, core.id, depth - 1)
+                    if r is not None:
+                        return r
+        return None
 
     def _mutation_by_method(self, call: ast.Call, external: str, f, eff, params, selfn):
         last = external.rsplit(".", 1)[-1]
@@ -343,6 +379,12 @@ class Effects:
                 e = ("GLOBALWRITE", f"{f.module.name}.{holder.id}.{last}()")
                 eff.add(e)
                 self.why.setdefault((f.qualname, e), (call.lineno, None))
+            else:
+                src = self._alias_source(f, holder.id)
+                if src is not None:
+                    e = ("WRITE", f"alias:{src}.{last}()")
+                    eff.add(e)
+                    self.why.setdefault((f.qualname, e), (call.lineno, None))
 
     # -------------------------------------------------------------- queries
     def of(self, f: FuncInfo) -> set:
